@@ -18,7 +18,7 @@ PROP = "C07"
 MANIFEST = dict(
     level="model_checking", design_ref="DESIGN.md 8 (C07), 7 (Commands), Appendix A.3",
     technique="TLA+ model of the triple-buffer command channel at atomic-access granularity (TLC, all interleavings) + two-thread stress recording validated by TLC against the same interval monitor + TLC-enumerated write/callback histories replayed on real handles and validated against the handle monitor",
-    text="The command channel every handle uses is model-checked for all interleavings of writer and reader steps (two-word values; exactly-once, newest-wins, not-lost, not-torn as an interval/linearizability monitor); the same monitor validates histories recorded from two real threads on the real primitive. At handle level TLC enumerates all histories of bursts of writes to several keys and callbacks up to a depth bound; the harness executes them on real handles and decodes the value in force after each callback (exact dB levels, states, clock ticking, modulator-linked volume, seek displacement).",
+    text="The command channel every handle uses is model-checked for all interleavings of writer and reader steps (two-word values; exactly-once, newest-wins, not-lost, not-torn as an interval/linearizability monitor); the same monitor validates histories recorded from two real threads on the real primitive. At handle level TLC enumerates all histories of bursts of writes to several keys and callbacks up to a depth bound; the harness executes them on real handles and decodes the value in force after each callback (exact dB levels, states, clock ticking, modulator-linked volume, seek displacement). Seek bursts include a last seek_by of zero.",
     note="Sub-operation interleavings inside triple_buffer cannot be forced on the real code (dependency without yield points): they are covered by the model and sampled by the two-thread stress run. Handle-level histories are unraced (commands are written between callbacks). Not every setter of every handle type is decoded: covered keys are main/sub-track/static/streaming volume, sound and track pause/resume, clock start/pause, tweener set, static seek_to/seek_by; different command kinds acting on the same observable are not mixed within one inter-callback window (order unspecified).")
 
 
